@@ -287,6 +287,20 @@ TagCalls ==
                \o (IF cfg.tags[pc].anon THEN <<>> ELSE <<"call|n" \o ToString(pc) \o "." \o EName(pc), ProviderTok(pc, EName(pc))>>)
   /\ pc' = pc + 1
   /\ UNCHANGED <<cfg, nsmemo, coll, nsctx, hop, cur, memo, imp, sattr, phase>>
+(* The member universe of a target is larger than what it exports: besides the exported defs d<k>, e<k> a file target has  *)
+(* its body(), a def nested inside d<k> ("inner"), a function render_helper written in <%! %> ("helper" to anything that    *)
+(* lists module-level render_* names) and a module attribute m; a module target has a non-callable m.  import="*" and       *)
+(* import="d<k>" make exactly the exported defs callable unqualified: every other name is left to the context.  With        *)
+(* context variables of those names supplied, the importing template reads ${body} ${helper} ${inner} ${m}.                 *)
+OtherNames == <<"body", "helper", "inner", "m">>
+ReadOthers ==
+  /\ phase = "run" /\ cfg.fam = "imports" /\ hop = 2 /\ pc = Len(cfg.tags) + 1
+  /\ out' = (IF cfg.ctx
+             THEN out \o <<"read|body", UnqualifiedTok("body"), "read|helper", UnqualifiedTok("helper"),
+                           "read|inner", UnqualifiedTok("inner"), "read|m", UnqualifiedTok("m")>>
+             ELSE out)
+  /\ hop' = 3
+  /\ UNCHANGED <<cfg, nsmemo, coll, nsctx, pc, cur, memo, imp, sattr, phase>>
 
 (* ================================================================== family "incpos" *)
 (* Values: args= gives 1, render() 2, the body assignment 3, the includer's own <%page args="z=4"/> default 4,      *)
@@ -337,9 +351,9 @@ Finished ==
   CASE cfg.fam = "uri" -> pc > Len(cfg.reqs) [] cfg.fam = "nsprec" -> pc > 3
     [] cfg.fam = "inh" -> hop = 2 /\ pc > cfg.N [] cfg.fam \in {"include", "incpos"} -> pc > 1
     [] cfg.fam = "multins" -> hop = 2 /\ pc > Len(cfg.decl)
-    [] cfg.fam = "imports" -> hop = 2 /\ pc > Len(cfg.tags)
+    [] cfg.fam = "imports" -> hop = 3
 Finish == /\ phase = "run" /\ Finished /\ phase' = "done" /\ UNCHANGED <<cfg, nsmemo, coll, nsctx, pc, hop, cur, memo, imp, sattr, out>>
-Next == Resolve \/ PopulateImports \/ Calls \/ GenNamespaces \/ Bodies \/ Include \/ IncludeAt \/ PopulateTag \/ TagCalls \/ MakeNamespace \/ Probe \/ Finish
+Next == Resolve \/ PopulateImports \/ Calls \/ GenNamespaces \/ Bodies \/ Include \/ IncludeAt \/ PopulateTag \/ TagCalls \/ ReadOthers \/ MakeNamespace \/ Probe \/ Finish
 Spec == Init /\ [][Next]_vars
 
 (* ------------------------------------------------------------------ the property *)
@@ -378,6 +392,9 @@ ImportsBeforeContext ==
   /\ (Done /\ cfg.fam = "imports") =>
        \A t \in 1..Len(cfg.tags) : \A x \in ImportedBy(t) :
           \E k \in 1..(Len(out) - 1) : out[k] = "call|" \o x /\ out[k + 1] = ProviderTok(t, x)
+  (* ... and nothing else is imported: the names a target has but does not export stay with the context *)
+  /\ (Done /\ cfg.fam = "imports" /\ cfg.ctx) =>
+       \A n \in 1..Len(OtherNames) : \E k \in 1..(Len(out) - 1) : out[k] = "read|" \o OtherNames[n] /\ out[k + 1] = "C|" \o OtherNames[n]
 InheritableReachable == (Done /\ cfg.fam = "inh") => \A k \in 1..Len(out) : out[k] \notin {"ERR|p"}
 (* what a def of a namespace observes is what it observes when that namespace is the only one declared:  *)
 (* it does not depend on which other namespaces the template declares, nor on their order               *)
